@@ -32,6 +32,7 @@ type Setup struct {
 	Readonly   bool
 	Versioning bool
 	Accounts   []Acct
+	Filter     string // "" = no event filter file; else `name=1,name=0,…`
 }
 
 func (s Setup) Lines(root string) []string {
@@ -45,22 +46,33 @@ func (s Setup) Lines(root string) []string {
 	for _, a := range s.Accounts {
 		out = append(out, fmt.Sprintf("gw acct %s %s %s", lib.HexS(a.Access), lib.HexS(a.Secret), a.Role))
 	}
+	if s.Filter != "" {
+		out = append(out, "gw filter "+s.Filter)
+	}
 	return out
 }
 
 // Step is one executed op with both answers.
 type Step struct {
-	Op     *Op
-	Impl   string
-	Model  string
-	Events string
-	Obs    *Obs
+	CompareEvents bool
+	Op            *Op
+	Impl          string
+	Model         string
+	Events        string
+	Obs           *Obs
 }
 
 // Diff classifies the difference between implementation and model for one step:
 // "" (equal), "fine" (both refuse, different code), or a coarse class.
 func (s *Step) Diff() (class string) {
 	if s.Impl == s.Model {
+		if s.CompareEvents {
+			me := canonEvents(s.Events)
+			ie := strings.Join(s.Obs.Events, ";")
+			if me != ie {
+				return "events-differ(impl=[" + ie + "] model=[" + me + "])"
+			}
+		}
 		return ""
 	}
 	ic, mc := codeOf(s.Impl), codeOf(s.Model)
@@ -298,4 +310,13 @@ func sortListField(line, name string) string {
 		}
 	}
 	return strings.Join(fs, " ")
+}
+
+func canonEvents(e string) string {
+	if strings.TrimSpace(e) == "" {
+		return ""
+	}
+	p := strings.Split(e, ";")
+	sortStrings(p)
+	return strings.Join(p, ";")
 }
